@@ -14,7 +14,8 @@ RULE = ("Fault enumeration: Hypothesis generates valid packet streams (1..6 pack
         "words, prefix k in {0,1,4} foreign bytes per packet) and EVERY cut offset 0..len of each stream is taken (the "
         "producer dying at that byte) (for streams holding a packet of 4-64 kB: every offset within 8 bytes of a packet boundary plus drawn offsets) x source kinds {bytes, BytesIO, real file, short-reading file object, scripted "
         "socket whose recv returns b'' after the last chunk (peer closed)} with read sizes rotating over {default, 1, "
-        "5, 7, 4096}, through ccsds_generator and through packet_generator of a header-only definition. Plus arbitrary "
+        "5, 7, 4096}, with the documented progress display (show_progress) off and on, through ccsds_generator and "
+        "through packet_generator of a header-only definition. Plus arbitrary "
         "byte strings of 0..200 bytes with k in 0..8 through every source kind, and (thorough) an atheris/libFuzzer "
         "campaign over (source kind, read size, k, bytes). Oracle (validity predicate over the history of yields): "
         "iteration ends within len//7+2 items and without polling an exhausted source more than that many times; no "
@@ -81,17 +82,20 @@ class Source:
             self.obj.close()
 
 
-def drive(data, k, kind, rs, route, sched=()):
+def drive(data, k, kind, rs, route, sched=(), progress=False):
     """returns (items as bytes, ended, exception or None)"""
+    import contextlib
     import warnings
     from space_packet_parser import packets
     cap = len(data) // 7 + 2
     src = Source(kind, data, list(sched), cap + 3)
     items, ended, exc = [], False, None
     try:
-        with warnings.catch_warnings():
+        with warnings.catch_warnings(), contextlib.redirect_stdout(io.StringIO()):
             warnings.simplefilter("ignore")
             kwargs = {"skip_header_bytes": k}
+            if progress:
+                kwargs["show_progress"] = True   # a documented option: the progress display must not change framing
             if rs is not None:
                 kwargs["buffer_read_size_bytes"] = rs
             if route == "ccsds":
@@ -149,7 +153,7 @@ def stream_of(case):
     return out, bounds
 
 
-def check_one(ctx, case, full, bounds, cut, kind, rs, route, sched=()):
+def check_one(ctx, case, full, bounds, cut, kind, rs, route, sched=(), progress=False):
     k = case["k"]
     data = full[:cut]
     ctx.count()
@@ -159,7 +163,9 @@ def check_one(ctx, case, full, bounds, cut, kind, rs, route, sched=()):
     ctx.cls(f"kind {kind}")
     if inside or cut == 0 or kind == "socket":
         ctx.nontrivial((case["packets"], k, cut, kind, rs, route))
-    items, ended, exc = drive(data, k, kind, rs, route, sched)
+    if progress:
+        ctx.cls("show_progress=True")
+    items, ended, exc = drive(data, k, kind, rs, route, sched, progress)
     r = judge(data, k, items, ended, exc)
     if r is None and not inside:
         # cut exactly on a packet boundary: all preceding packets are yielded
@@ -167,8 +173,8 @@ def check_one(ctx, case, full, bounds, cut, kind, rs, route, sched=()):
         if len(items) != want:
             r = ("boundary-count", f"stream cut on the boundary after packet {want}: {len(items)} items yielded")
     if r:
-        only = {"cut": cut, "kind": kind, "rs": rs, "route": route, "sched": list(sched)}
-        ctx.fail(r[0], f"{kind} source, read size {rs}, k={k}, route {route}, stream of {len(full)} bytes cut at "
+        only = {"cut": cut, "kind": kind, "rs": rs, "route": route, "sched": list(sched), "progress": progress}
+        ctx.fail(r[0], f"{kind} source, read size {rs}, k={k}, route {route}, show_progress={progress}, stream of {len(full)} bytes cut at "
                        f"{cut}: {r[1]}", dict(case, only=only), bucket=f"{r[0]}|{kind}|{route}")
         return False
     return True
@@ -180,7 +186,7 @@ def check_stream(ctx, case):
     only = case.get("only")
     if only:
         return check_one(ctx, case, full, bounds, only["cut"], only["kind"], only["rs"], only["route"],
-                         only.get("sched", ()))
+                         only.get("sched", ()), only.get("progress", False))
     kinds = case.get("kinds", KINDS)
     cuts = range(len(full) + 1)
     if "cuts" in case:  # big streams: all offsets near every packet boundary and the drawn ones, not all
@@ -190,10 +196,11 @@ def check_stream(ctx, case):
         for ki, kind in enumerate(kinds):
             rs = READ_SIZES[(cut + ki) % len(READ_SIZES)]
             sched = case["sched"][cut % len(case["sched"]):] if case["sched"] else ()
-            if not check_one(ctx, case, full, bounds, cut, kind, rs, "ccsds", sched):
+            if not check_one(ctx, case, full, bounds, cut, kind, rs, "ccsds", sched, progress=(cut + 2 * ki) % 7 == 0):
                 return
         kind = kinds[cut % len(kinds)]
-        if not check_one(ctx, case, full, bounds, cut, kind, READ_SIZES[cut % len(READ_SIZES)], "pgen"):
+        if not check_one(ctx, case, full, bounds, cut, kind, READ_SIZES[cut % len(READ_SIZES)], "pgen",
+                         progress=cut % 5 == 3):
             return
 
 
@@ -275,16 +282,18 @@ def part_fixed(ctx):
         for kind in KINDS:
             for rs in READ_SIZES:
                 for route in ("ccsds", "pgen"):
-                    case = {"data": data.hex(), "k": 0, "rs": [rs], "sched": [], "fixed": [kind, route]}
-                    ctx.count()
-                    n += 1
-                    ctx.cls("fixed situations")
-                    ctx.nontrivial_distinct()
-                    items, ended, exc = drive(data, 0, kind, rs, route)
-                    r = judge(data, 0, items, ended, exc)
-                    if r:
-                        ctx.fail(r[0], f"{kind} source, read size {rs}, route {route}, input {data.hex()}: {r[1]}",
-                                 case, bucket=f"{r[0]}|{kind}|{route}")
+                    for progress in (False, True):
+                        case = {"data": data.hex(), "k": 0, "rs": [rs], "sched": [], "fixed": [kind, route],
+                                "progress": progress}
+                        ctx.count()
+                        n += 1
+                        ctx.cls("fixed situations")
+                        ctx.nontrivial_distinct()
+                        items, ended, exc = drive(data, 0, kind, rs, route, (), progress)
+                        r = judge(data, 0, items, ended, exc)
+                        if r:
+                            ctx.fail(r[0], f"{kind} source, read size {rs}, route {route}, show_progress={progress}, "
+                                           f"input {data.hex()}: {r[1]}", case, bucket=f"{r[0]}|{kind}|{route}")
     ctx.domain("hand-picked end-of-data situations x kinds x read sizes x routes", n)
 
 
@@ -293,7 +302,8 @@ def replay_fixed(ctx, case):
         kind, route = case["fixed"]
         data = bytes.fromhex(case["data"])
         ctx.count()
-        items, ended, exc = drive(data, case["k"], kind, case["rs"][0], route)
+        items, ended, exc = drive(data, case["k"], kind, case["rs"][0], route, case.get("sched", ()),
+                                  case.get("progress", False))
         r = judge(data, case["k"], items, ended, exc)
         if r:
             ctx.fail(r[0], f"{kind} source, route {route}, input {data.hex()}: {r[1]}", case,
